@@ -173,3 +173,7 @@ CLAUSES.append(Clause("regexp_to_nfa_sequence", r2n_sequence_cases, run_r2n_sequ
 CLAUSES.append(Clause("object_history", lambda tier: WB.fa_programs(tier, "regexp"), WB.run_fa, quick=400, thorough=4000,
                       rule="(dfa_to_regexp on DFA objects with a history: converted, modified in place, converted again) " + WB.FA_RULE))
 KNOWN_PREDICATES = {}
+
+# coverage-guided second driver (atheris / libFuzzer through Hypothesis' fuzz_one_input) for the core clauses: (clause, quick runs, thorough runs)
+from harness.covfuzz import cov_clauses  # noqa: E402
+CLAUSES += cov_clauses('C06', CLAUSES, [('regexp_to_nfa', 3000, 60000), ('dfa_to_regexp', 1500, 30000)])
